@@ -571,6 +571,12 @@ def __Solver_2(simu: "_Simu", problemType: "ProblemType"):
 
     dofs_Dirichlet = simu.Bc_dofs_Dirichlet(problemType)
     values_Dirichlet = simu.Bc_values_Dirichlet(problemType)
+    # A dof entered several times holds the sum of the entered values (same convention as r1).
+    # One line per dof: two lines on the same dof would make the bordered matrix singular.
+    dofs_Dirichlet, inverse = np.unique(dofs_Dirichlet, return_inverse=True)
+    values_Dirichlet = np.bincount(
+        inverse, weights=values_Dirichlet, minlength=dofs_Dirichlet.size
+    )
 
     list_Bc_Lagrange = simu.Bc_Lagrange
 
